@@ -24,13 +24,14 @@ package oj
 // Relation between the Validator's concrete state and the specification
 // automaton state q after the same prefix (n bytes of the stream).
 
-//@ pred EqButOff(a, b) = a.Ph == b.Ph && a.Kinds == b.Kinds && a.Key == b.Key && a.Lit == b.Lit && a.K == b.K
+//@ pred EqButOffSL(a, b) = a.Ph == b.Ph && a.Kinds == b.Kinds && a.Key == b.Key && a.Lit == b.Lit && a.K == b.K
 //@     && a.Line == b.Line && a.LastNL == b.LastNL && a.Multi == b.Multi && a.ErrOff == b.ErrOff && a.Docs == b.Docs
-//@     && a.H == b.H && a.Bases == b.Bases
+//@     && a.H == b.H && a.Bases == b.Bases && a.RN == b.RN
+//@ pred EqButOff(a, b) = EqButOffSL(a, b) && a.SLen == b.SLen
 
 //@ pred EqButOffPh(a, b) = a.Kinds == b.Kinds && a.Key == b.Key && a.Lit == b.Lit && a.K == b.K
 //@     && a.Line == b.Line && a.LastNL == b.LastNL && a.Multi == b.Multi && a.ErrOff == b.ErrOff && a.Docs == b.Docs
-//@     && a.H == b.H && a.Bases == b.Bases
+//@     && a.H == b.H && a.Bases == b.Bases && a.SLen == b.SLen && a.RN == b.RN
 
 //@ pred TopIs(q, kind) = q.Kinds.Len() > 0 && q.Kinds.Top() == kind
 
@@ -121,8 +122,8 @@ package oj
 //@     invariant $k >= 0 ==> i == $k && b == $s[$k]
 //@     invariant $k == -1 ==> i == i0 && b == b0
 //@     invariant $k >= 0 ==> stringMap[b] == strOk
-//@     invariant [C01 C09 sim] EqButOff(spec.Run(qi, S, base+o1+$k+1), R1) && spec.Run(qi, S, base+o1+$k+1).Off == base+o1+$k+1
-//@     invariant [C01 C09 sim] $k >= 0 ==> EqButOff(spec.Run(qi, S, base+o1+$k), R1) && spec.Run(qi, S, base+o1+$k).Off == base+o1+$k
+//@     invariant [C01 C09 sim] EqButOffSL(spec.Run(qi, S, base+o1+$k+1), R1) && spec.Run(qi, S, base+o1+$k+1).Off == base+o1+$k+1 && spec.Run(qi, S, base+o1+$k+1).SLen == R1.SLen + $k + 1
+//@     invariant [C01 C09 sim] $k >= 0 ==> EqButOffSL(spec.Run(qi, S, base+o1+$k), R1) && spec.Run(qi, S, base+o1+$k).Off == base+o1+$k && spec.Run(qi, S, base+o1+$k).SLen == R1.SLen + $k
 //@     use spec.Run.unfold(qi, S, base+o1+$k+1)
 //@   loop 3
 //@     let o1 = off + 1
@@ -133,8 +134,8 @@ package oj
 //@     invariant $k >= 0 ==> i == $k && b == $s[$k]
 //@     invariant $k == -1 ==> i == i0 && b == b0
 //@     invariant $k >= 0 ==> stringMap[b] == strOk
-//@     invariant [C01 C09 sim] EqButOff(spec.Run(qi, S, base+o1+$k+1), R1) && spec.Run(qi, S, base+o1+$k+1).Off == base+o1+$k+1
-//@     invariant [C01 C09 sim] $k >= 0 ==> EqButOff(spec.Run(qi, S, base+o1+$k), R1) && spec.Run(qi, S, base+o1+$k).Off == base+o1+$k
+//@     invariant [C01 C09 sim] EqButOffSL(spec.Run(qi, S, base+o1+$k+1), R1) && spec.Run(qi, S, base+o1+$k+1).Off == base+o1+$k+1 && spec.Run(qi, S, base+o1+$k+1).SLen == R1.SLen + $k + 1
+//@     invariant [C01 C09 sim] $k >= 0 ==> EqButOffSL(spec.Run(qi, S, base+o1+$k), R1) && spec.Run(qi, S, base+o1+$k).Off == base+o1+$k && spec.Run(qi, S, base+o1+$k).SLen == R1.SLen + $k
 //@     use spec.Run.unfold(qi, S, base+o1+$k+1)
 //@   loop 4
 //@     let o1 = off + 1
@@ -274,7 +275,11 @@ package oj
 // Every recycled map is a map (p.maps only ever receives the result of make).
 //@ pred PMaps(p) = (forall k: 0 <= k && k < len(p.maps) ==> p.maps[k] != nil)
 
-//@ pred PRel(p, q, n, base) = VMode(p, q) && PLevels(p, q) && PTop(p, q) && q.Off == n && q.Multi == !p.OnlyOne
+// Payload of the string being read on the slow path: p.tmp holds exactly the decoded bytes so far, p.rn the hex digits.
+//@ pred PStr(p, q) = ((q.Ph == spec.Str || q.Ph == spec.StrEsc || q.Ph == spec.StrU) ==> len(p.tmp) == q.SLen && 0 <= q.SLen)
+//@     && (q.Ph == spec.StrU ==> p.rn == q.RN && 0 <= q.RN && (q.K == 0 ==> q.RN == 0) && (q.K == 1 ==> q.RN < 16) && (q.K == 2 ==> q.RN < 256) && (q.K == 3 ==> q.RN < 4096))
+
+//@ pred PRel(p, q, n, base) = VMode(p, q) && PStr(p, q) && PLevels(p, q) && PTop(p, q) && q.Off == n && q.Multi == !p.OnlyOne
 //@     && p.line == q.Line && p.noff == q.LastNL - base && 1 <= q.Line && q.Line <= n + 1 && -1 <= q.LastNL && q.LastNL < n
 //@     && (q.Ph >= spec.NumNeg && q.Ph <= spec.NumExp ==> gen.NumInv(p.num)) && 0 <= p.mi && p.mi <= len(p.maps) && PMaps(p)
 
@@ -331,8 +336,8 @@ package oj
 //@     invariant $k >= 0 ==> i == $k && b == $s[$k]
 //@     invariant $k == -1 ==> i == i0 && b == b0
 //@     invariant $k >= 0 ==> stringMap[b] == strOk
-//@     invariant [C01 C09 sim] EqButOff(spec.Run(qi, S, base+o1+$k+1), R1) && spec.Run(qi, S, base+o1+$k+1).Off == base+o1+$k+1
-//@     invariant [C01 C09 sim] $k >= 0 ==> EqButOff(spec.Run(qi, S, base+o1+$k), R1) && spec.Run(qi, S, base+o1+$k).Off == base+o1+$k
+//@     invariant [C01 C09 sim] EqButOffSL(spec.Run(qi, S, base+o1+$k+1), R1) && spec.Run(qi, S, base+o1+$k+1).Off == base+o1+$k+1 && spec.Run(qi, S, base+o1+$k+1).SLen == R1.SLen + $k + 1
+//@     invariant [C01 C09 sim] $k >= 0 ==> EqButOffSL(spec.Run(qi, S, base+o1+$k), R1) && spec.Run(qi, S, base+o1+$k).Off == base+o1+$k && spec.Run(qi, S, base+o1+$k).SLen == R1.SLen + $k
 //@     use spec.Run.unfold(qi, S, base+o1+$k+1)
 //@   loop 3
 //@     let o1 = off + 1
@@ -342,8 +347,8 @@ package oj
 //@     invariant $k >= 0 ==> i == $k && b == $s[$k]
 //@     invariant $k == -1 ==> i == i0 && b == b0
 //@     invariant $k >= 0 ==> stringMap[b] == strOk
-//@     invariant [C01 C09 sim] EqButOff(spec.Run(qi, S, base+o1+$k+1), R1) && spec.Run(qi, S, base+o1+$k+1).Off == base+o1+$k+1
-//@     invariant [C01 C09 sim] $k >= 0 ==> EqButOff(spec.Run(qi, S, base+o1+$k), R1) && spec.Run(qi, S, base+o1+$k).Off == base+o1+$k
+//@     invariant [C01 C09 sim] EqButOffSL(spec.Run(qi, S, base+o1+$k+1), R1) && spec.Run(qi, S, base+o1+$k+1).Off == base+o1+$k+1 && spec.Run(qi, S, base+o1+$k+1).SLen == R1.SLen + $k + 1
+//@     invariant [C01 C09 sim] $k >= 0 ==> EqButOffSL(spec.Run(qi, S, base+o1+$k), R1) && spec.Run(qi, S, base+o1+$k).Off == base+o1+$k && spec.Run(qi, S, base+o1+$k).SLen == R1.SLen + $k
 //@     use spec.Run.unfold(qi, S, base+o1+$k+1)
 //@   loop 4
 //@     invariant true
@@ -489,7 +494,7 @@ package oj
 //@ pred TStack(t, q) = len(t.starts) == q.Kinds.Len()
 //@     && (forall i: 0 <= i && i < len(t.starts) ==> (t.starts[i] == '{' && q.Kinds[i] == spec.Obj) || (t.starts[i] == '[' && q.Kinds[i] == spec.Arr))
 
-//@ pred TRel(t, q, n, base) = VMode(t, q) && TStack(t, q) && q.Off == n && q.Multi == !t.OnlyOne
+//@ pred TRel(t, q, n, base) = VMode(t, q) && PStr(t, q) && TStack(t, q) && q.Off == n && q.Multi == !t.OnlyOne
 //@     && t.line == q.Line && t.noff == q.LastNL - base && 1 <= q.Line && q.Line <= n + 1 && -1 <= q.LastNL && q.LastNL < n
 //@     && (q.Ph >= spec.NumNeg && q.Ph <= spec.NumExp ==> gen.NumInv(t.num)) && t.handler != nil
 
@@ -541,8 +546,8 @@ package oj
 //@     invariant $k >= 0 ==> i == $k && b == $s[$k]
 //@     invariant $k == -1 ==> i == i0 && b == b0
 //@     invariant $k >= 0 ==> stringMap[b] == strOk
-//@     invariant [C01 C09 sim] EqButOff(spec.Run(qi, S, base+o1+$k+1), R1) && spec.Run(qi, S, base+o1+$k+1).Off == base+o1+$k+1
-//@     invariant [C01 C09 sim] $k >= 0 ==> EqButOff(spec.Run(qi, S, base+o1+$k), R1) && spec.Run(qi, S, base+o1+$k).Off == base+o1+$k
+//@     invariant [C01 C09 sim] EqButOffSL(spec.Run(qi, S, base+o1+$k+1), R1) && spec.Run(qi, S, base+o1+$k+1).Off == base+o1+$k+1 && spec.Run(qi, S, base+o1+$k+1).SLen == R1.SLen + $k + 1
+//@     invariant [C01 C09 sim] $k >= 0 ==> EqButOffSL(spec.Run(qi, S, base+o1+$k), R1) && spec.Run(qi, S, base+o1+$k).Off == base+o1+$k && spec.Run(qi, S, base+o1+$k).SLen == R1.SLen + $k
 //@     use spec.Run.unfold(qi, S, base+o1+$k+1)
 //@   loop 3
 //@     let o1 = off + 1
@@ -552,8 +557,8 @@ package oj
 //@     invariant $k >= 0 ==> i == $k && b == $s[$k]
 //@     invariant $k == -1 ==> i == i0 && b == b0
 //@     invariant $k >= 0 ==> stringMap[b] == strOk
-//@     invariant [C01 C09 sim] EqButOff(spec.Run(qi, S, base+o1+$k+1), R1) && spec.Run(qi, S, base+o1+$k+1).Off == base+o1+$k+1
-//@     invariant [C01 C09 sim] $k >= 0 ==> EqButOff(spec.Run(qi, S, base+o1+$k), R1) && spec.Run(qi, S, base+o1+$k).Off == base+o1+$k
+//@     invariant [C01 C09 sim] EqButOffSL(spec.Run(qi, S, base+o1+$k+1), R1) && spec.Run(qi, S, base+o1+$k+1).Off == base+o1+$k+1 && spec.Run(qi, S, base+o1+$k+1).SLen == R1.SLen + $k + 1
+//@     invariant [C01 C09 sim] $k >= 0 ==> EqButOffSL(spec.Run(qi, S, base+o1+$k), R1) && spec.Run(qi, S, base+o1+$k).Off == base+o1+$k && spec.Run(qi, S, base+o1+$k).SLen == R1.SLen + $k
 //@     use spec.Run.unfold(qi, S, base+o1+$k+1)
 //@   loop 4
 //@     let o1 = off + 1
